@@ -142,8 +142,8 @@ class K2Score(StructureScore):
         )
 
         score = (
-            np.sum(log_gamma_counts)
-            - np.sum(log_gamma_conds)
+            (np.sum(log_gamma_counts) + gamma_counts_adj)
+            - (np.sum(log_gamma_conds) + gamma_conds_adj)
             + num_parents_states * lgamma(var_cardinality)
         )
 
